@@ -354,7 +354,14 @@ func RunProperty(id, tier string, seed uint64) int {
 			total.Excluded[k] += v
 		}
 		for k, v := range r.Notes {
-			total.Notes[k] = v
+			// numeric notes (counters) add up over the shards
+			a, errA := strconv.Atoi(total.Notes[k])
+			b, errB := strconv.Atoi(v)
+			if errA == nil && errB == nil {
+				total.Notes[k] = strconv.Itoa(a + b)
+			} else {
+				total.Notes[k] = v
+			}
 		}
 		for _, sm := range r.Samples {
 			if len(total.Samples) < 5 {
